@@ -366,6 +366,60 @@ func (d *Dir) Absorb(root string) ([]string, error) {
 	return changed, err
 }
 
+// FaultFS injects faults in front of any filesystem.Filesystem (in particular gopki's own NativeFs):
+// a torn write is delegated to the inner WriteFile with a prefix of the content, which is what a
+// process dying inside a write leaves behind.
+type FaultFS struct {
+	Inner  filesystem.Filesystem
+	Fault  Fault
+	Writes []string
+}
+
+func (f *FaultFS) FS() fs.FS                             { return f.Inner.FS() }
+func (f *FaultFS) Stat(name string) (os.FileInfo, error) { return f.Inner.Stat(name) }
+func (f *FaultFS) DeleteFile(name string) error          { return f.Inner.DeleteFile(name) }
+func (f *FaultFS) WriteFile(name string, content []byte) error {
+	k := len(f.Writes)
+	f.Writes = append(f.Writes, name)
+	act := FaultAction{Write: -1}
+	if f.Fault != nil {
+		act = f.Fault(k, name, content)
+	}
+	var err error
+	switch {
+	case act.Write == -1 || act.Write >= len(content):
+		err = f.Inner.WriteFile(name, content)
+	case act.Write >= 0:
+		err = f.Inner.WriteFile(name, content[:act.Write])
+	}
+	if act.Die {
+		panic(ErrDied)
+	}
+	if act.Fail {
+		return ErrInjected
+	}
+	return err
+}
+
+// RunNativeFault runs on gopki's NativeFs in a temp directory with faults injected in front of it.
+func RunNativeFault(d *Dir, strat int, fault Fault) (RunResult, error) {
+	d.Tick(10)
+	root, err := os.MkdirTemp("", "gopki-verif-")
+	if err != nil {
+		return RunResult{}, err
+	}
+	defer os.RemoveAll(root)
+	if err := d.Materialise(root); err != nil {
+		return RunResult{}, err
+	}
+	ff := &FaultFS{Inner: filesystem.NewNativeFs(root), Fault: fault}
+	res := RunFS(ff, strat)
+	res.Writes = ff.Writes
+	_, err = d.Absorb(root)
+	d.Tick(10)
+	return res, err
+}
+
 // RunNative runs the library on gopki's NewNativeFs over a temp directory.
 func RunNative(d *Dir, strat int) (RunResult, error) {
 	d.Tick(10)
